@@ -10,6 +10,9 @@ from __future__ import annotations
 
 import re
 
+# helper snippets of the emitter, in stitch order (FLOORDIV / MOD: the templates for Python's // and %, absent from older emitters)
+SNIPPET_KEYS = ("LCD", "LIST", "LEN", "FLOORDIV", "MOD")
+
 RANK = {"include": 0, "helper": 1, "global": 2, "proto": 3, "function": 4, "ultra": 5, "setup": 6, "loop": 7}
 
 IDENT = re.compile(r"[A-Za-z_]\w*")
@@ -133,7 +136,9 @@ def read_sketch(cpp: str, consts: dict, fn_names):
     if len(code) != len(cpp):
         raise SplitError("internal: strip_code changed the length")
     regions = []
-    for key in ("LCD", "LIST", "LEN"):
+    for key in SNIPPET_KEYS:
+        if key not in consts:
+            continue
         sn = consts[key]
         k = cpp.find(sn)
         if k >= 0:
@@ -182,7 +187,11 @@ def read_sketch(cpp: str, consts: dict, fn_names):
             name = _head_name(ctext, "=;([{")
             if not name:
                 raise SplitError("top-level declaration without a name: " + text[:60])
-            items.append({"kind": "global", "name": name, "defs": [name], "ctext": ctext, "text": text, "fixed_uses": []})
+            # a forward declaration: <type> <name>(<parameters>); of a user function or an ultrasonic helper - no initialiser,
+            # the parenthesis follows the name directly (an object definition with constructor arguments has another name)
+            is_proto = (name in fn_names or name.startswith("__redu_ultrasonic_measure_")) and "=" not in ctext \
+                and re.search(r"\b" + re.escape(name) + r"\s*\([^()]*\)\s*;\s*$", ctext) is not None
+            items.append({"kind": "proto" if is_proto else "global", "name": name, "defs": [name], "ctext": ctext, "text": text, "fixed_uses": []})
 
     universe = set()
     for it in items:
@@ -205,7 +214,9 @@ def read_sketch(cpp: str, consts: dict, fn_names):
 
 def encode_case(items, op=3):
     """-> (wire case for coq/Wire/C06W.v op 3/4, name->id table).  Sections keep the text order
-    of their members; the model's stitch puts the sections into the emitter's order."""
+    of their members; the model's stitch puts the sections into the emitter's order.  The prototypes
+    found in the text are NOT sent: the model generates them from the functions and the ultrasonic
+    helpers, and the caller compares (kinds in order, names declared by each prototype)."""
     ids = {}
 
     def idof(n):
@@ -218,6 +229,9 @@ def encode_case(items, op=3):
 
     sec = {k: [] for k in ("include", "helper", "global", "function", "ultra", "setup", "loop")}
     for it in items:
+        if it["kind"] == "proto":
+            idof(it["name"])
+            continue
         sec[it["kind"]].append(body(it))
     if len(sec["setup"]) != 1 or len(sec["loop"]) != 1:
         return None, ids
